@@ -318,6 +318,9 @@ struct Worlds {
         if (w[0] == "in" && w.size() >= 4) {
             size_t k; Entity e;
             if (!liveIndex(w[1], k) || !d.parseEntity(w[3], e)) { out << "bad-op\n"; return; }
+            // the unguarded entry points (contract: valid handle) take a foreign handle only as a DEFERRED command
+            const bool unguarded = w[2] == "assign" || w[2] == "assign0" || w[2] == "build" || w[2] == "sassign" || w[2] == "markdirty";
+            if (unguarded && !ws[k].d->world->entities().isLocked()) { out << "bad-op\n"; return; }
             char buf[40]; std::snprintf(buf, sizeof buf, "raw:%llx", static_cast<unsigned long long>(e.value));
             std::string l2 = w[2] + " " + buf;
             for (size_t i = 4; i < w.size(); ++i) l2 += " " + w[i];
